@@ -62,7 +62,7 @@ def run(cmd, cwd=None, env=None, log=None, timeout=1800, check=True):
     return p
 
 
-def eval_cases(case_files, log):
+def eval_cases(case_files, log, width=4):
     """coqc every cases_<i>.v (in parallel); returns [(id, [visits, e2e, keep, fin])] parsed from
     the single `Eval vm_compute` of each file."""
     from concurrent.futures import ThreadPoolExecutor
@@ -76,7 +76,7 @@ def eval_cases(case_files, log):
     rows = []
     for part in parts:
         for r in part:
-            if not (isinstance(r, tuple) and len(r) == 2 and isinstance(r[1], list) and len(r[1]) == 4):
+            if not (isinstance(r, tuple) and len(r) == 2 and isinstance(r[1], list) and len(r[1]) == width):
                 raise CheckError("unexpected shape of a vm_compute row: %r" % (r,))
             rows.append(r)
     rows.sort(key=lambda r: r[0])
